@@ -276,15 +276,25 @@ async def _tls_scenario(path: str, seed: int) -> dict[str, Any]:
     try:
         attempts = 0
         end_time = t0 + (sum(p[2] for p in pieces) + sum(b[0] + b[2] for b in bursts) + 2) * TICK
+        broken = False
         while len(delivered) < npk and attempts < 80 and loop.time() < end_time:
             attempts += 1
-            await recv_once(rng.choice(["move_on", "timeout", "task"]), rng.choice([0, 1, 1, 2, 3]) * TICK)
-        while len(delivered) < npk:
+            try:
+                await recv_once(rng.choice(["move_on", "timeout", "task"]), rng.choice([0, 1, 1, 2, 3]) * TICK)
+            except Exception as exc:  # noqa: BLE001
+                # the peer neither closed nor sent anything wrong: a receive has no reason to fail
+                problems.append(f"a receive failed with {type(exc).__name__}: {exc}")
+                broken = True
+                break
+        while len(delivered) < npk and not broken:
             try:
                 with backend.timeout(120):
                     got(await endpoint.recv_packet())
             except TimeoutError:
                 problems.append("final receive timed out: bytes are missing")
+                break
+            except Exception as exc:  # noqa: BLE001
+                problems.append(f"a receive failed with {type(exc).__name__}: {exc}")
                 break
         done, pending = await asyncio.wait(side, timeout=120)
         if pending:
